@@ -24,6 +24,7 @@ CONFIGS = [
     ('colon2', [34, 58, 32, 97], 58, 58),
     ('comma-with-tab', [34, 44, 9, 97], 44, 0),     # TAB is an ordinary character around quoted fields (only the space is white space here)
     ('tab', [34, 9, 32, 97], 9, 0),
+    ('space-with-tab', [34, 32, 9, 97], 32, 0),     # whitespace policy: only the space separates, a TAB is field content
 ]
 
 
@@ -220,7 +221,7 @@ def self_test_mutant(run):
 
 def check(run):
     quick = run.tier == 'quick'
-    maxlen = {'comma': 7 if quick else 9, 'space': 8 if quick else 10, 'colon2': 6 if quick else 8, 'comma-with-tab': 6 if quick else 8, 'tab': 6 if quick else 8}
+    maxlen = {'comma': 7 if quick else 9, 'space': 8 if quick else 10, 'colon2': 6 if quick else 8, 'comma-with-tab': 6 if quick else 8, 'tab': 6 if quick else 8, 'space-with-tab': 6 if quick else 8}
     run.rule = ('cases = every line up to the bound over {quote, delimiter chars, space, other} per delimiter, emitted by TLC from CsvScanner and replayed into '
                 'smart_split (4 policies x normal/preserve) and CSVRecordIterator (5 policies) of rbql-py and smart_split of rbql-js; plus random Unicode lines '
                 'recorded from the real splitters and judged by TLC; non-trivial = line contains a quote or a delimiter character; distinct by (impl, delimiter, line[, policy])')
